@@ -989,9 +989,10 @@ class QueryBuilder(Selectable, Term):  # type:ignore[misc]
             )
             for table in self._from
         ]
-        if self._insert_table == current_table:
+        # (a statement without an INSERT / UPDATE target has none to replace, also when current_table is None)
+        if self._insert_table is not None and self._insert_table == current_table:
             self._insert_table = new_table
-        if self._update_table == current_table:
+        if self._update_table is not None and self._update_table == current_table:
             self._update_table = new_table
 
         self._with = [
